@@ -473,10 +473,10 @@ func (e *Events) MayInstr(in ssa.Instruction) bool {
 	if !ok {
 		return false
 	}
-	for _, f := range e.P.Callees(c) {
-		if e.P.InModule(f) && e.May(f) {
-			return true
-		}
+	// only statically resolved module callees are followed: expanding interface calls
+	// (especially with the coarse CHA graph) would make every handler "maybe" do everything
+	if f := c.Common().StaticCallee(); f != nil && e.P.InModule(f) && e.May(f) {
+		return true
 	}
 	// closures passed or created here are not followed: they run when called.
 	return false
